@@ -1,3 +1,4 @@
+import Nstd.Codec.Mem
 import Nstd.Generated.CodecTables
 /-!
   Executable model of the text codecs and numeric conversions of libnstd (property C18):
@@ -18,38 +19,6 @@ import Nstd.Generated.CodecTables
 -/
 namespace Nstd.Codec
 open Nstd.Generated.Codec
-
-/-- result of a computation on checked memory -/
-inductive Res (α : Type) where
-  | ok (a : α)
-  | oob                    -- an access outside the given range / table / buffer
-deriving Repr, DecidableEq
-
-def Res.bind {α β : Type} (r : Res α) (f : α → Res β) : Res β :=
-  match r with
-  | .ok a => f a
-  | .oob => .oob
-
-@[simp] theorem Res.bind_ok {α β : Type} (a : α) (f : α → Res β) : (Res.ok a).bind f = f a := rfl
-@[simp] theorem Res.bind_oob {α β : Type} (f : α → Res β) : (Res.oob : Res α).bind f = .oob := rfl
-
-/-- checked read of element `i` of a block / table -/
-def rd (bs : List Nat) (i : Nat) : Res Nat :=
-  match bs[i]? with
-  | some b => .ok b
-  | none => .oob
-
-/-- checked read of byte `k` of the range `[0, len)` the caller handed over (inside `mem`) -/
-def rdR (mem : List Nat) (len k : Nat) : Res Nat :=
-  if k < len then rd mem k else .oob
-
-/-- checked table read with a C `int` index (may be negative when a signed char is used) -/
-def rdTable (t : List Nat) (i : Int) : Res Nat :=
-  if 0 ≤ i then rd t i.toNat else .oob
-
-/-- checked write into a buffer of fixed extent -/
-def wr (out : List Nat) (j v : Nat) : Res (List Nat) :=
-  if j < out.length then .ok (out.set j v) else .oob
 
 /-! ## UTF-8 encoder: `Unicode::append(uint32 ch, String& str)`, `Unicode::toString(uint32)` -/
 
@@ -84,7 +53,7 @@ def sub32 (a b : Nat) : Nat := (a + 4294967296 - b) % 4294967296
 def fromString (mem : List Nat) (len : Nat) : Res Nat :=
   if len = 0 then .ok 0
   else (rdR mem len 0).bind fun b0 =>
-    if b0 &&& utf8AsciiMask = 0 then .ok b0
+    if utf8IsAscii b0 then .ok b0
     else
       let reqLen := utf8Length b0
       if len < reqLen then .ok 0
@@ -162,22 +131,23 @@ def b64Switch (i c j : Nat) (out : List Nat) : Res (Nat × List Nat) :=
   else
     (rd out j).bind fun x => (wr out j (x ||| b64Or3 c)).bind fun o => .ok (j + 1, o)
 
-/-- the `for` loop over the remaining input bytes; `none` = `return String()` (rejected),
+/-- the `for` loop over the remaining input bytes; the per-byte tests are the generated `b64Byte` (source
+    order of guard / table read / marker / pad tests); `none` = `return String()` (rejected),
     `some (j, out)` = loop left by `break` or exhaustion -/
 def b64Loop : List Nat → Nat → Nat → List Nat → Res (Option (Nat × List Nat))
   | [], _, j, out => .ok (some (j, out))
   | b :: rest, i, j, out =>
-    if base64GuardRejects b then .ok none
-    else (rdTable base64de (base64Index b)).bind fun c =>
-      if c = base64Invalid then
-        (if b = base64Pad then .ok (some (j, out)) else .ok none)
-      else (b64Switch i c j out).bind fun r => b64Loop rest (i + 1) r.1 r.2
+    (b64Byte b).bind fun s =>
+      match s with
+      | .stop => .ok (some (j, out))
+      | .reject => .ok none
+      | .val c => (b64Switch i c j out).bind fun r => b64Loop rest (i + 1) r.1 r.2
 
-/-- `result.reserve(inlen)` gives a buffer of at least `inlen` bytes (+ terminator); the model
-    checks the writes against exactly `inlen`.  `result.resize(j)` keeps the first `j` bytes. -/
+/-- `result.reserve(E)` gives a buffer of at least `b64Reserve inlen` bytes (+ terminator); the model
+    checks every `out[j]` access against exactly that many.  `result.resize(j)` keeps the first `j` bytes. -/
 def fromBase64 (inp : List Nat) : Res (List Nat) :=
-  if inp.length &&& base64LenMask ≠ 0 then .ok []
-  else (b64Loop inp 0 0 (List.replicate inp.length 0)).bind fun r =>
+  if b64LenRejects inp.length then .ok []
+  else (b64Loop inp 0 0 (List.replicate (b64Reserve inp.length) 0)).bind fun r =>
     match r with
     | none => .ok []
     | some (j, out) => .ok (out.take j)
